@@ -404,6 +404,16 @@ var caseNo int
 func runScenario(t *rapid.T, sc *scenario) string {
 	caseNo++
 	ptr := reflect.New(sc.typ)
+	if rapid.IntRange(0, 2).Draw(t, "structHoldsOldValues") == 0 {
+		// the struct is not fresh: it still holds the values of an earlier round (a program that parses its
+		// configuration again into the same struct, or that pre-fills it). The outcome is defined by the four sources
+		// alone, so the old values must not survive in any field.
+		for _, f := range sc.fields {
+			old := genValue(f.kind, false, "").Draw(t, "oldValue")
+			ptr.Elem().FieldByIndex(f.index).Set(reflect.ValueOf(old).Convert(kindType[f.kind]))
+		}
+		ev.Label("gen:struct_holds_values_of_an_earlier_round")
+	}
 	fs, err := config.NewFlagSet(ptr.Interface())
 	if err != nil {
 		return "NewFlagSet: " + err.Error()
